@@ -508,6 +508,9 @@ func runWorker(prop, tier string, wi, wn int, res *workerResult) {
 	p := planFor(prop, tier)
 	if prop == "C03" || prop == "C11" {
 		runStacks(prop, tier, wi, wn, p, res)
+		if prop == "C03" {
+			runBigStacks(tier, wi, wn, res)
+		}
 		return
 	}
 	if prop == "C14" {
@@ -529,6 +532,9 @@ func runWorker(prop, tier string, wi, wn int, res *workerResult) {
 		for _, cfg := range refsForCfgs(tier != "thorough") {
 			if mine() {
 				tablegen.F4(cfg, yield)
+			}
+			if !cfg.SkipObj && (cfg.BlockSize == 128 || cfg.BlockSize == 256) && mine() {
+				tablegen.F4Fan(cfg, 120, 3, yield)
 			}
 		}
 	}
@@ -582,6 +588,11 @@ func replayCase(prop string, raw json.RawMessage, res *workerResult) error {
 	}
 	if cj.Family == "stack" {
 		return replayStack(prop, raw, res)
+	}
+	if cj.Family == "bigstack" {
+		// the family is small: a replay re-runs all of it (the violation is found again if it is still there)
+		runBigStacks("thorough", 0, 1, res)
+		return nil
 	}
 	if cj.Family == "history" {
 		var hj struct{ History json.RawMessage }
